@@ -267,6 +267,25 @@ fn check_world(w: &World, step: usize, line: &str, before_anom: usize) {
                     cx().violate("C10", "C10/invalid-map", "map not sorted and disjoint".into(), format!("step {} {}: handle {} lists {:x?}", step, line, hi, got));
                 }
             }
+            // the map resolves nothing outside its own regions: every other region of the world (removed
+            // from this map, never part of it, possibly unmapped by now) is absent
+            for other in w.regs.iter().filter(|o| !list.contains(&o.id)) {
+                let overlaps = list.iter().any(|&i| w.regs[i].base < other.base.wrapping_add(other.size as u64) && other.base < w.regs[i].base + w.regs[i].size as u64);
+                if overlaps || other.base.checked_add(other.size as u64).is_none() {
+                    continue;
+                }
+                for probe in [other.base, other.base + other.size as u64 - 1] {
+                    if m.find_region(GuestAddress(probe)).is_some() || m.address_in_range(GuestAddress(probe)) || m.get_host_address(GuestAddress(probe)).is_ok() {
+                        cx().violate(prop, cls_changed, format!("{} resolves an address outside its regions", what), format!("step {} {}: handle {} ({}) lists {:x?} but resolves {:#x}, an address of region #{} which is not part of it", step, line, hi, what, got, probe, other.id));
+                        if let Some(mid) = other.mid {
+                            if !cx().sys.origin_live(mid) {
+                                cx().violate("C12", "C12/use-after-unmap", format!("{} still resolves a region whose mapping is gone", what), format!("step {} {}: handle {} ({}) resolves {:#x} to region #{} whose mapping has been unmapped with its last owner", step, line, hi, what, probe, other.id));
+                            }
+                        }
+                        return;
+                    }
+                }
+            }
             for &i in list {
                 let r = &w.regs[i];
                 let mut buf = vec![0u8; r.size.min(8)];
